@@ -272,6 +272,39 @@ impl<'r> G<'r> {
                     self.p.uses.push(Use { file: self.cur, range: (s, e), decl: f.decl, position: "field-let-name", optional: true });
                     self.p.hints.push(Hint { file: self.cur, pos: e, label: format!(":{}", f.ty.render()), kind: "field-let" });
                     children.push(OutlineNode { name: f.name.clone(), kind: "Field", range: (s, e), children: vec![] });
+                    // a bits field may be overridden in part: `let f{3-0} = 5;` (still an override of f: one outline child,
+                    // the declared type of f as hint; heirs may override f again)
+                    if let Ty::Bits(n) = f.ty {
+                        if n >= 2 && self.rng.chance(1, 2) {
+                            let hi = 1 + self.rng.below(n as usize - 1);
+                            let lo = self.rng.below(hi + 1);
+                            let width = hi - lo + 1;
+                            let form = self.rng.below(3);
+                            if lo == hi {
+                                self.put(&format!("{{{}}}", hi));
+                            } else if form == 0 {
+                                self.put(&format!("{{{}-{}}}", hi, lo));
+                            } else if form == 1 {
+                                self.put(&format!("{{{}...{}}}", hi, lo));
+                            } else {
+                                self.put(&format!("{{{}, {}}}", hi, lo));
+                            }
+                            let width = if form == 2 && lo != hi { 2 } else { width };
+                            let max = (1usize << width.min(16)) - 1;
+                            let v = self.rng.below(max + 1);
+                            self.put(&format!(" = {};", v));
+                            if let Some(r) = self.rec.as_mut() {
+                                for x in r.fields.iter_mut() {
+                                    if x.name == f.name {
+                                        x.usable = false; // not read any more (which declaration a later use means is left open)
+                                    }
+                                }
+                            }
+                            declared_here.push(f.name.clone());
+                            self.p.features.push("body:field-let-bit-range");
+                            continue;
+                        }
+                    }
                     self.put(" = ");
                     let a = self.pos();
                     self.hidden_field = Some(f.name.clone());
@@ -655,6 +688,12 @@ impl<'r> G<'r> {
     pub fn if_stmt(&mut self, depth: u32) {
         let start = self.fold_begin();
         self.put("if ");
+        let untyped_condition = self.rng.chance(1, 5);
+        if untyped_condition {
+            // a condition whose type has to come from its operands
+            self.put("!cond(true: ");
+            self.p.features.push("stmt:if-untyped-condition");
+        }
         // condition over things known at top level
         self.put("!lt(");
         let ints: Vec<(String, usize)> = self
@@ -668,7 +707,7 @@ impl<'r> G<'r> {
         } else {
             self.put("1");
         }
-        self.put(", 5) then ");
+        self.put(if untyped_condition { ", 5)) then " } else { ", 5) then " });
         self.in_branch += 1;
         let has_else = self.rng.chance(1, 2);
         // with an else the then-branch is braced: `if a then if b then X else Y` would hand the else to the inner if
